@@ -624,3 +624,37 @@ def cas_flow(fn, cas_call):
     return facts.PredFlow(fn, csw, cbool)
 
 
+
+
+def result_unused(cs):
+    """The value returned by this call is never read (e.g. `let _ = x.swap(v, ..)`, or a statement call)."""
+    d = cs.t.get("dest")
+    if not d or d.get("pr"):
+        return False
+    l = d["l"]
+    body = cs.body
+
+    def mentions(o):
+        p = o.get("copy") or o.get("move") if isinstance(o, dict) else None
+        return bool(p) and (p["l"] == l or any(isinstance(e, dict) and e.get("idx") == l for e in p.get("pr") or []))
+
+    for i, blk in enumerate(body.blocks):
+        for st in blk["s"]:
+            if st["k"] != "assign":
+                continue
+            rv = st["rv"]
+            if any(mentions(rv.get(k)) for k in ("a", "b")) or any(mentions(o) for o in rv.get("ops", [])):
+                return False
+            if isinstance(rv.get("p"), dict) and rv["p"]["l"] == l:
+                return False
+            if st["p"]["l"] == l and st["p"].get("pr"):
+                return False
+        t = blk.get("t") or {}
+        if any(mentions(o) for o in t.get("args", [])) or mentions(t.get("discr")) or mentions(t.get("cond")) or mentions(t.get("callee_op")):
+            return False
+    return l != 0
+
+
+def is_plain_write(o):
+    """An atomic op tuple from atomic_ops() that only writes: store, or a swap whose previous value is discarded."""
+    return o[1] == "store" or (o[1] == "swap" and result_unused(o[0]))
